@@ -678,6 +678,16 @@ func (w *Reconciler) handlePendingTasks(
 			continue
 		}
 
+		// Skip if the task is running, or was seen running before. The running
+		// timestamp may temporarily disappear from a running task, but it is retained
+		// in the Job's status once it was seen.
+		if ref.Status.State == execution.TaskRunning {
+			continue
+		}
+		if existing := jobutil.FindTaskRef(rj, task); existing != nil && !existing.RunningTimestamp.IsZero() {
+			continue
+		}
+
 		// Skip if task is not yet overdue.
 		if deadline := ref.CreationTimestamp.Add(pendingTimeout); deadline.After(now) {
 			w.enqueueAfter(rj, "task_pending_timeout", time.Until(deadline))
